@@ -709,6 +709,21 @@ def _sum(func, args, kwargs):
     return Sym.make(out.reshape(tuple(m.shape)), m.dtype)
 
 
+@handles("norm", "linalg_vector_norm", "linalg_norm")
+def _norm(func, args, kwargs):
+    """2-norm (the default) along dim / over everything: sqrt of the sum of squares"""
+    from .ops import s_sqrt
+    a = args[0]
+    pord = getarg(args, kwargs, 1, "p", None) if func_name(func) == "norm" else getarg(args, kwargs, 1, "ord", None)
+    if pord not in (None, 2, 2.0, "fro"):
+        raise Unsupported("norm with p = %r" % (pord,))
+    dim = getarg(args, kwargs, 2, "dim", None); keepdim = getarg(args, kwargs, 3, "keepdim", False)
+    m = meta_call(func, args, kwargs)
+    p = apply1(lambda t: T.mul(toreal(t), toreal(t)), P(a))
+    out = reduce_payload(p, dims_of(dim, p.ndim), keepdim, t_sum, rv(0))
+    return Sym.make(apply1(s_sqrt, out.reshape(tuple(m.shape))), m.dtype)
+
+
 @handles("mean")
 def _mean(func, args, kwargs):
     a = args[0]
